@@ -8,42 +8,66 @@ package extractor
 // the item's base tag. Listed as assumptions in the evidence of every property using them.
 
 //@ func HTMLAssets
+//@   property C10
+//@   sweep idx slice div
 //@   opaque
 //@   modifies models.URL::*!Hops!Redirects, models.Item::base
 //@ func HTMLOutlinks
+//@   property C10
+//@   sweep idx slice div
 //@   opaque
 //@   modifies models.URL::*!Hops!Redirects, models.Item::base
 //@   ensures [fresh-urls] freshslice(result0) && forall(j, 0, len(result0), result0[j] == nil || fresh(result0[j])) // assumed: the extractor builds a new list of new URL objects, it never hands back the page's own URL object
 //@ func PDF
+//@   property C10
+//@   sweep idx slice div
 //@   opaque
 //@   modifies models.URL::*!Hops!Redirects
 //@   ensures [fresh-urls] freshslice(result0) && forall(j, 0, len(result0), result0[j] == nil || fresh(result0[j])) // assumed: the extractor builds a new list of new URL objects, it never hands back the page's own URL object
 //@ func ExtractURLsFromHeader
+//@   property C10
+//@   sweep idx slice div
 //@   opaque
 //@   modifies nothing
 //@   ensures [fresh-urls] freshslice(result0) && forall(j, 0, len(result0), result0[j] == nil || fresh(result0[j])) // assumed: the extractor builds a new list of new URL objects, it never hands back the page's own URL object
 //@ func IsSitemapXML
+//@   property C10
+//@   sweep idx slice div
 //@   opaque
 //@   modifies models.URL::*!Hops!Redirects
 //@ func IsHTML
+//@   property C10
+//@   sweep idx slice div
 //@   opaque
 //@   modifies nothing
 //@ func IsPDF
+//@   property C10
+//@   sweep idx slice div
 //@   opaque
 //@   modifies nothing
 //@ func IsS3
+//@   property C10
+//@   sweep idx slice div
 //@   opaque
 //@   modifies nothing
 //@ func IsM3U8
+//@   property C10
+//@   sweep idx slice div
 //@   opaque
 //@   modifies nothing
 //@ func IsJSON
+//@   property C10
+//@   sweep idx slice div
 //@   opaque
 //@   modifies nothing
 //@ func IsXML
+//@   property C10
+//@   sweep idx slice div
 //@   opaque
 //@   modifies nothing
 //@ func S3
+//@   property C10
+//@   sweep idx slice div
 //@   opaque
 //@   modifies models.URL::*!Hops!Redirects
 //@   ensures [fresh-urls] freshslice(result0) && forall(j, 0, len(result0), result0[j] == nil || fresh(result0[j])) // assumed: the extractor builds a new list of new URL objects, it never hands back the page's own URL object
